@@ -48,6 +48,20 @@ pub fn number_pm_percent(add: bool) {
     core::mem::forget(r); core::mem::forget(cfg);
 }
 
+pub fn currency_full(code: &str, symbol: &str, digits: u8) -> Rc<CurrencyInfo> {
+    Rc::new(CurrencyInfo {
+        code: code.to_string(), symbol: symbol.to_string(), thousands_separator: ".".to_string(),
+        decimal_separator: ",".to_string(), symbol_on_left: true, space_between_amount_and_symbol: false, decimal_digits: digits,
+    })
+}
+
+pub fn two_currency_config_with(a: Rc<CurrencyInfo>, b: Rc<CurrencyInfo>, r1: f64, r2: f64) -> (SmartCalcConfig, Rc<CurrencyInfo>, Rc<CurrencyInfo>) {
+    let mut cfg = blank_config();
+    cfg.currency_rate.insert(a.clone(), r1);
+    cfg.currency_rate.insert(b.clone(), r2);
+    (cfg, a, b)
+}
+
 pub fn two_currency_config(r1: f64, r2: f64) -> (SmartCalcConfig, Rc<CurrencyInfo>, Rc<CurrencyInfo>) {
     let mut cfg = blank_config();
     let a = currency("aaa");
@@ -259,8 +273,10 @@ pub fn m_replay_number_calc() {
 
 /// number|money (+,-) percent natively: (is_money, add, x, p)
 pub fn m_replay_calc_percent() {
-    let (cfg, a, _b) = two_currency_config(1.0, 2.0);
     let is_money: bool = vany(); let add: bool = vany(); let x: f64 = vany(); let p: f64 = vany();
+    let digits: u8 = vany();
+    vassume(digits <= 4);
+    let (cfg, a, _b) = two_currency_config_with(currency_full("AAA", "$", digits), currency_full("BBB", "B", 2), 1.0, 2.0);
     let op = if add { OperationType::Add } else { OperationType::Sub };
     let r = if is_money { MoneyItem(x, a.clone()).calculate(&cfg, true, &PercentItem(p), op) } else { NumberItem(x, NumberType::Decimal).calculate(&cfg, true, &PercentItem(p), op) };
     let it = r.expect("X +- p% is computed");
@@ -278,7 +294,8 @@ pub fn m_replay_calc_percent() {
 /// convert_money natively: (same currency, amount, rate(A), rate(B))
 pub fn m_replay_convert_money() {
     let same: bool = vany(); let x: f64 = vany(); let ra: f64 = vany(); let rb: f64 = vany();
-    let (mut cfg, a, b) = two_currency_config(ra, rb);
+    let src_is_usd: bool = vany();
+    let (mut cfg, a, b) = two_currency_config_with(currency_full(if src_is_usd { "USD" } else { "aaa" }, "$", 2), currency_full("bbb", "B", 2), ra, rb);
     cfg.currency.insert("aaa".to_string(), a.clone());
     cfg.currency.insert("bbb".to_string(), b.clone());
     let s = Session::new();
@@ -290,7 +307,7 @@ pub fn m_replay_convert_money() {
     let want = guarded_div(x, ra) * rate_to;
     match &r {
         Ok(TokenType::Money(v, c)) => {
-            assert!(c.code == target);
+            assert!(Rc::ptr_eq(c, if same { &a } else { &b }));
             assert!(close(*v, want, want));
             if same && ra != 0.0 && ra.is_finite() { assert!(close(*v, x, x)); }
         }
@@ -301,8 +318,9 @@ pub fn m_replay_convert_money() {
 /// money (op) money natively: (op, same currency, x, y, rate(L), rate(R))
 pub fn m_replay_money_money() {
     let k: u8 = vany(); let same: bool = vany(); let x: f64 = vany(); let y: f64 = vany(); let rl: f64 = vany(); let rr: f64 = vany();
+    let same_symbol: bool = vany();
     vassume(k < 4);
-    let (cfg, a, b) = two_currency_config(rl, if same { rl } else { rr });
+    let (cfg, a, b) = two_currency_config_with(currency_full("AAA", "$", 2), currency_full("BBB", if same_symbol { "$" } else { "B" }, 2), rl, if same { rl } else { rr });
     let right_cur = if same { a.clone() } else { b.clone() };
     let r = MoneyItem(x, a.clone()).calculate(&cfg, true, &MoneyItem(y, right_cur), op_m(k));
     let it = r.expect("money op money is computed");
